@@ -1,7 +1,7 @@
 import Hls.Conc.Search
 /-
   Witness traces for the UNCHANGED tree (skeleton constant `legacySkeleton`), found with
-  `bfs` (see the `#eval`s at the end) and re-checked here by kernel evaluation of `run`.
+  `bfs` (Hls/Conc/Search.lean; how to re-run it is in notes/muxconc.md) and re-checked here by kernel evaluation of `run`.
 -/
 namespace Hls.Conc
 
